@@ -45,7 +45,7 @@ fn change(t: u8, v: u32) -> u8 {
     r
 }
 
-fn exh3(order: &[u32], threads: u32, rep: &mut Report) {
+pub fn exh3(order: &[u32], threads: u32, rep: &mut Report) {
     let ctx = json!({"kind": "zbdd", "order": order, "threads": threads});
     progress(&json!({"sig": "C09/crash-setup", "ctx": ctx}).to_string());
     let mr = mk_manager::<K>(3, order, 1 << 12, 1 << 8, threads);
